@@ -8,7 +8,7 @@ EXTENDS Loc
 Classes == {"SI", "CI", "SEQ", "CDS", "TX", "FEAT", "GENE", "VAR", "VCOLL", "COLL", "PARENT"}
 Kinds == {"start>end", "negative", "beyond-sequence", "length-mismatch", "frames-mismatch", "cds-outside-exons",
           "undirected", "wrong-alphabet", "overlapping", "duplicate", "empty", "mixed-frame-phase", "multi-primary",
-          "half-bounds", "strand-mismatch", "zero-length"}
+          "half-bounds", "strand-mismatch", "zero-length", "beyond-sequence-not-last"}
 (* outcomes: value | documented rejection | anything else is an internal error *)
 InternalExc(o) == IsExc(o) /\ o[2] \notin DocumentedExc
 Pairwise(ss, es) == Len(ss) = Len(es) /\ Len(ss) > 0 /\ \A i \in DOMAIN ss : 0 <= ss[i] /\ ss[i] <= es[i]
@@ -46,6 +46,9 @@ Corrupt(cls, a, kind) ==
     [] cls \in {"CI", "FEAT"} /\ kind = "length-mismatch" -> <<a[1], Append(a[2], a[2][Len(a[2])] + 2), a[3], a[4]>>
     [] cls \in {"CI", "FEAT"} /\ kind = "empty" -> <<<<>>, <<>>, a[3], a[4]>>
     [] cls \in {"CI", "FEAT"} /\ kind = "beyond-sequence" /\ a[4] >= 0 -> <<a[1], Bump(a[2], Len(a[2]), a[4] + 1), a[3], a[4]>>
+    \* the block that runs past the sequence end is not the one that starts last (a nested / enclosing block)
+    [] cls \in {"CI", "FEAT"} /\ kind = "beyond-sequence-not-last" /\ a[4] >= 0 /\ Len(a[1]) >= 2 ->
+         <<a[1], Bump(a[2], 1, a[4] + 1), a[3], a[4]>>
     [] cls = "SEQ" /\ kind = "wrong-alphabet" -> <<Append(a[1], "!"), a[2]>>
     [] cls = "CDS" /\ kind = "start>end" -> <<Bump(a[1], 1, a[2][1] + 1), a[2], a[3], a[4], a[5], a[6]>>
     [] cls = "CDS" /\ kind = "frames-mismatch" -> <<a[1], a[2], a[3], Append(a[4], 0), a[5], a[6]>>
